@@ -1,5 +1,339 @@
-import SuplaVerif.Model.Srpc
+/-
+  Props/C01 — SRPC receiver delivers only genuine well-formed frames and is memory-safe.
+
+  Property theorems only (helper lemmas live in Lemmas/*).  Everything is proved for every
+  `ProtoParams` satisfying the side conditions `WF` and `bufMin < bufMax`; Gen/Consts.lean
+  (regenerated from /repo on every run) instantiates them for the constants of the source.
+
+  Quantifiers: every history = every list of events (segments of any content and size, iterate
+  ticks, device calls, espconn result scripts), every content of the scratch packet `srpc->sdp`
+  at every event; no bound on lengths.
+-/
+import SuplaVerif.Lemmas.Io
 import SuplaVerif.Gen.Consts
+
 namespace SuplaVerif.C01
-theorem placeholder_params_wf : Gen.protoParams.WF := Gen.protoParams_wf
+open Bytes
+
+/-- bytes of an event that the receive callback takes into the staging buffer -/
+def acceptedBytes (P : ProtoParams) (s : Io) : Ev → Bytes
+  | .recv d => if Io.accepts P s d then d else []
+  | _ => []
+
+/-- the byte stream accepted during a history (segments dropped by the staging-buffer bound,
+    and everything after the connection died, excluded) -/
+def acceptedStream (P : ProtoParams) (al : Nat → Bool) (s : Io) : List (Bytes × Ev) → Bytes
+  | [] => []
+  | (sc, e) :: es => acceptedBytes P s e ++ acceptedStream P al (Io.step P al sc s e).1 es
+
+/-- all bytes the network delivered during a history -/
+def offeredStream : List (Bytes × Ev) → Bytes
+  | [] => []
+  | (_, .recv d) :: es => d ++ offeredStream es
+  | _ :: es => offeredStream es
+
+/-- state invariant relating what was delivered (`fs`) to the accepted stream (`S`) -/
+structure Good (P : ProtoParams) (s : Io) (S : Bytes) (fs : List Frame) : Prop where
+  valid  : ∀ f ∈ fs, f.Valid P
+  inv    : s.i.inb.Inv P
+  stage  : s.i.staging.length ≤ P.stage
+  stream : ∃ tail, S = Frame.enc fs ++ tail ∧ (s.dead = false → tail = s.i.inb.data ++ s.i.staging)
+
+theorem enc_append (a b : List Frame) : Frame.enc (a ++ b) = Frame.enc a ++ Frame.enc b := by
+  simp [Frame.enc]
+
+theorem enc_single (f : Frame) : Frame.enc [f] = f.bytes := by simp [Frame.enc]
+
+/-- devIterate keeps the invariant; the delivered frame (if any) is the next frame of the stream -/
+theorem devIterate_good (P : ProtoParams) (hP : P.WF) (hm : P.bufMin < P.bufMax) (sc : Bytes)
+    (s : Io) (S : Bytes) (fs : List Frame) (hd : s.dead = false) (hg : Good P s S fs) :
+    Good P (Io.devIterate P sc s).1 S (fs ++ delivers (Io.devIterate P sc s).2) := by
+  obtain ⟨hv, hinv, hst, tail, hS, htail⟩ := hg
+  have htl := htail hd
+  have hspec := inHalf_spec P hP hm sc s.i hinv
+  unfold Io.devIterate Io.srpcIterate
+  simp only
+  generalize hin : s.i.inHalf P sc = r at hspec
+  obtain ⟨ok, i', o1⟩ := r
+  simp only at hspec
+  obtain ⟨hinv', hstg', hcase⟩ := hspec
+  cases ok with
+  | false =>
+    simp only
+    rcases hcase with ⟨f, _, _, hok, _⟩ | ⟨hdel, _⟩
+    · cases hok
+    · refine ⟨?_, hinv', ?_, tail, ?_, fun h => by cases h⟩
+      · simpa [hdel] using hv
+      · show i'.staging.length ≤ P.stage; omega
+      · simp [hdel, hS]
+  | true =>
+    simp only
+    generalize hout : IoOut.outHalf P (IoOut.dataWrite P s.o []).1 = ro
+    obtain ⟨ok2, o', o2⟩ := ro
+    rcases hcase with ⟨f, hdel, hfv, _, hpend⟩ | ⟨hdel, hkeep⟩
+    · have hgood : ∀ d : Bool, Good P { i := i', o := o', dead := d } S (fs ++ [f]) := by
+        intro d
+        refine ⟨?_, hinv', (by show i'.staging.length ≤ P.stage; omega), i'.inb.data ++ i'.staging, ?_,
+          fun _ => rfl⟩
+        · intro g hgm
+          rcases List.mem_append.mp hgm with h | h
+          · exact hv g h
+          · simp at h; subst h; exact hfv
+        · rw [hS, htl, hpend, enc_append, enc_single]; simp
+      cases ok2 <;> simp [hdel] <;> exact hgood _
+    · have hgood : ∀ d : Bool, Good P { i := i', o := o', dead := d } S fs := by
+        intro d
+        refine ⟨hv, hinv', (by show i'.staging.length ≤ P.stage; omega), tail, hS, fun _ => ?_⟩
+        rw [htl]; exact (hkeep rfl).symm
+      cases ok2 <;> simp [hdel] <;> exact hgood _
+
+/-- one event keeps the invariant, extending the accepted stream by the accepted bytes and the
+    delivered list by what the event delivered -/
+theorem step_good (P : ProtoParams) (hP : P.WF) (hm : P.bufMin < P.bufMax) (al : Nat → Bool)
+    (sc : Bytes) (s : Io) (e : Ev) (S : Bytes) (fs : List Frame) (hg : Good P s S fs) :
+    Good P (Io.step P al sc s e).1 (S ++ acceptedBytes P s e) (fs ++ delivers (Io.step P al sc s e).2) := by
+  cases hd : s.dead with
+  | true =>
+    have hacc : acceptedBytes P s e = [] := by
+      cases e <;> simp [acceptedBytes, Io.accepts, hd]
+    have hstep : Io.step P al sc s e = (s, []) := by unfold Io.step; simp [hd]
+    rw [hstep, hacc]
+    simpa using hg
+  | false =>
+    cases e with
+    | tick =>
+      have hstep : Io.step P al sc s .tick = Io.devIterate P sc s := by unfold Io.step; simp [hd]
+      rw [hstep]
+      simpa [acceptedBytes] using devIterate_good P hP hm sc s S fs hd hg
+    | call c p =>
+      have hstep : Io.step P al sc s (.call c p) =
+          ({ s with o := (IoOut.asyncCall P al s.o c p).1 }, (IoOut.asyncCall P al s.o c p).2.map Obs.out) := by
+        unfold Io.step; simp [hd]
+      rw [hstep]
+      simp only [acceptedBytes, List.append_nil, delivers_map_out]
+      refine ⟨hg.valid, hg.inv, hg.stage, ?_⟩
+      exact hg.stream
+    | esp cs =>
+      have hstep : Io.step P al sc s (.esp cs) =
+          ({ s with o := { s.o with esp := s.o.esp ++ cs } }, []) := by
+        unfold Io.step; simp [hd]
+      rw [hstep]
+      simp only [acceptedBytes, List.append_nil, delivers_nil]
+      refine ⟨hg.valid, hg.inv, hg.stage, ?_⟩
+      exact hg.stream
+    | recv d =>
+      have hstep : Io.step P al sc s (.recv d) = Io.recvCb P sc s d := by unfold Io.step; simp [hd]
+      rw [hstep]
+      unfold Io.recvCb
+      by_cases h0 : d.length = 0
+      · have : d = [] := List.eq_nil_of_length_eq_zero h0
+        subst this
+        simp [acceptedBytes]
+        exact hg
+      · rw [if_neg h0]
+        by_cases hfit : d.length ≤ P.stage - s.i.staging.length
+        · rw [if_pos hfit]
+          have hacc : acceptedBytes P s (.recv d) = d := by
+            simp [acceptedBytes, Io.accepts, hd, hfit]
+          rw [hacc]
+          apply devIterate_good P hP hm sc _ _ fs (by simpa using hd)
+          obtain ⟨hv, hinv, hst, tail, hS, htail⟩ := hg
+          refine ⟨hv, hinv, ?_, tail ++ d, by rw [hS]; simp, fun _ => ?_⟩
+          · show (s.i.staging ++ d).length ≤ P.stage
+            simp only [List.length_append]; omega
+          · show tail ++ d = s.i.inb.data ++ (s.i.staging ++ d)
+            rw [htail hd]; simp
+        · rw [if_neg hfit]
+          have hacc : acceptedBytes P s (.recv d) = [] := by
+            simp [acceptedBytes, Io.accepts, hfit]
+          simpa [hacc] using hg
+
+theorem run_good (P : ProtoParams) (hP : P.WF) (hm : P.bufMin < P.bufMax) (al : Nat → Bool)
+    (h : List (Bytes × Ev)) (s : Io) (S : Bytes) (fs : List Frame) (hg : Good P s S fs) :
+    Good P (Io.run P al s h).1 (S ++ acceptedStream P al s h) (fs ++ delivers (Io.run P al s h).2) := by
+  induction h generalizing s S fs with
+  | nil => simpa [Io.run, acceptedStream] using hg
+  | cons x xs ih =>
+    obtain ⟨sc, e⟩ := x
+    have h1 := step_good P hP hm al sc s e S fs hg
+    have h2 := ih _ _ _ h1
+    unfold Io.run acceptedStream
+    generalize hst : Io.step P al sc s e = r at h1 h2
+    obtain ⟨s1, o1⟩ := r
+    simp only at h1 h2 ⊢
+    generalize hrn : Io.run P al s1 xs = r2 at h2
+    obtain ⟨s2, o2⟩ := r2
+    simpa [List.append_assoc] using h2
+
+theorem init_good (P : ProtoParams) (hb : 0 < P.bufMax) (o : IoOut) :
+    Good P { i := {}, o := o, dead := false } [] [] :=
+  ⟨by simp, AccBuf.Inv.init P hb, by simp, [], by simp [Frame.enc], by simp⟩
+
+/-- the greedy frame list of `enc fs ++ tail` starts with `fs` -/
+theorem goodFramesFuel_enc (P : ProtoParams) (hP : P.WF) (fs : List Frame) (hv : ∀ f ∈ fs, f.Valid P)
+    (tail : Bytes) (n : Nat) (hn : fs.length ≤ n) :
+    goodFramesFuel P n (Frame.enc fs ++ tail) = fs ++ goodFramesFuel P (n - fs.length) tail := by
+  induction fs generalizing n with
+  | nil => simp [Frame.enc]
+  | cons f fs ih =>
+    cases n with
+    | zero => simp at hn
+    | succ n =>
+      have henc : Frame.enc (f :: fs) ++ tail = f.bytes ++ (Frame.enc fs ++ tail) := by
+        simp [Frame.enc]
+      rw [henc]
+      simp only [goodFramesFuel]
+      rw [parseHead_complete P hP f (hv f (by simp)) _]
+      simp only
+      rw [ih (fun g hg => hv g (by simp [hg])) n (by simpa using hn)]
+      simp
+
+theorem enc_length_ge (fs : List Frame) : fs.length ≤ (Frame.enc fs).length := by
+  induction fs with
+  | nil => simp [Frame.enc]
+  | cons f fs ih =>
+    have : Frame.enc (f :: fs) = f.bytes ++ Frame.enc fs := by simp [Frame.enc]
+    rw [this, List.length_append, Frame.bytes_length]
+    simp only [List.length_cons]; omega
+
+/-! ## The property theorems -/
+
+/-- **C01.1 (delivery)** For every history from a fresh connection: the packets handed to the
+    handler are a prefix of the good frames of the accepted byte stream — in stream order, each at
+    most once, byte-for-byte (`goodFrames` is defined on the stream alone, so the result does not
+    depend on segmentation or on where iterate ticks fall). -/
+theorem c01_delivery (P : ProtoParams) (hP : P.WF) (hm : P.bufMin < P.bufMax) (al : Nat → Bool)
+    (o : IoOut) (h : List (Bytes × Ev)) :
+    delivers (Io.run P al { i := {}, o := o, dead := false } h).2 <+:
+      goodFrames P (acceptedStream P al { i := {}, o := o, dead := false } h) := by
+  have hg := run_good P hP hm al h _ [] [] (init_good P (by omega) o)
+  simp only [List.nil_append] at hg
+  obtain ⟨hv, _, _, tail, hS, _⟩ := hg
+  unfold goodFrames
+  rw [hS, goodFramesFuel_enc P hP _ hv tail _ (by
+    have := enc_length_ge (delivers (Io.run P al { i := {}, o := o, dead := false } h).2)
+    simp only [List.length_append]; omega)]
+  exact List.prefix_append _ _
+
+/-- **C01.1b (genuine)** every delivered packet is a valid frame whose wire image occurs in the
+    accepted stream at the position after the previously delivered ones. -/
+theorem c01_genuine (P : ProtoParams) (hP : P.WF) (hm : P.bufMin < P.bufMax) (al : Nat → Bool)
+    (o : IoOut) (h : List (Bytes × Ev)) :
+    (∀ f ∈ delivers (Io.run P al { i := {}, o := o, dead := false } h).2, f.Valid P) ∧
+    ∃ tail, acceptedStream P al { i := {}, o := o, dead := false } h =
+      Frame.enc (delivers (Io.run P al { i := {}, o := o, dead := false } h).2) ++ tail := by
+  have hg := run_good P hP hm al h _ [] [] (init_good P (by omega) o)
+  simp only [List.nil_append] at hg
+  obtain ⟨hv, _, _, tail, hS, _⟩ := hg
+  exact ⟨hv, tail, hS⟩
+
+/-- **C01.1c (complete when drained)** if the connection is alive and nothing is pending, exactly
+    the good frames of the accepted stream have been delivered and the stream is their encoding. -/
+theorem c01_drained (P : ProtoParams) (hP : P.WF) (hm : P.bufMin < P.bufMax) (al : Nat → Bool)
+    (o : IoOut) (h : List (Bytes × Ev))
+    (halive : (Io.run P al { i := {}, o := o, dead := false } h).1.dead = false)
+    (hempty : (Io.run P al { i := {}, o := o, dead := false } h).1.i.inb.data = [] ∧
+              (Io.run P al { i := {}, o := o, dead := false } h).1.i.staging = []) :
+    acceptedStream P al { i := {}, o := o, dead := false } h =
+      Frame.enc (delivers (Io.run P al { i := {}, o := o, dead := false } h).2) := by
+  have hg := run_good P hP hm al h _ [] [] (init_good P (by omega) o)
+  simp only [List.nil_append] at hg
+  obtain ⟨_, _, _, tail, hS, htail⟩ := hg
+  have := htail halive
+  rw [hempty.1, hempty.2] at this
+  rw [hS, this]; simp
+
+/-- **C01.2 (errors end the connection)** once dead (after any error) no event delivers anything
+    or changes the state: no earlier packet is delivered again, nothing later is delivered. -/
+theorem c01_dead_silent (P : ProtoParams) (al : Nat → Bool) (s : Io) (hd : s.dead = true)
+    (h : List (Bytes × Ev)) : Io.run P al s h = (s, []) := by
+  induction h with
+  | nil => rfl
+  | cons x xs ih =>
+    obtain ⟨sc, e⟩ := x
+    unfold Io.run
+    have : Io.step P al sc s e = (s, []) := by unfold Io.step; simp [hd]
+    rw [this]; simp only; rw [ih]; rfl
+
+/-- **C01.2b (errors are reported)** an iterate that does not succeed (malformed tag, version out
+    of range, oversized or wrapped length, wrong end tag, buffer overflow) kills the connection
+    and emits the restart observation; a malformed head is such a failure. -/
+theorem c01_error_reported (P : ProtoParams) (sc : Bytes) (s : Io)
+    (hfail : (Io.srpcIterate P sc { s with o := (s.o.dataWrite P []).1 }).1 = false) :
+    (Io.devIterate P sc s).1.dead = true ∧ Obs.restart ∈ (Io.devIterate P sc s).2 := by
+  unfold Io.devIterate
+  simp only
+  split
+  · rename_i heq; rw [heq] at hfail; cases hfail
+  · simp
+
+theorem c01_malformed_fails (P : ProtoParams) (hP : P.WF) (hm : P.bufMin < P.bufMax) (sc : Bytes)
+    (i : IoIn) (hb : i.inb.Inv P) (hst : i.staging = [])
+    (hbad : parseHead P i.inb.data = .bad ∨ parseHead P i.inb.data = .badVersion) :
+    (i.inHalf P sc).1 = false ∧ delivers (i.inHalf P sc).2.2 = [] := by
+  unfold IoIn.inHalf
+  simp only [hst, List.take_nil, List.length_nil, Nat.lt_irrefl, if_false, List.drop_nil]
+  simp only [ne_eq, not_true_eq_false, if_false]
+  rcases hbad with h | h
+  · obtain ⟨b', sdp, hpop, _, _⟩ := popInSdp_bad P hP hm i.inb sc hb h
+    rw [hpop]; simp
+  · obtain ⟨b', sdp, hpop, _, _⟩ := popInSdp_badVersion P hm i.inb sc hb h
+    rw [hpop]; simp
+
+/-- **C01.3 (bounds)** in every reachable state the buffered input is below the fixed receive
+    limit and the staging buffer within its array. -/
+theorem c01_bounds (P : ProtoParams) (hP : P.WF) (hm : P.bufMin < P.bufMax) (al : Nat → Bool)
+    (o : IoOut) (h : List (Bytes × Ev)) :
+    (Io.run P al { i := {}, o := o, dead := false } h).1.i.inb.data.length < P.bufMax ∧
+    (Io.run P al { i := {}, o := o, dead := false } h).1.i.staging.length ≤ P.stage := by
+  have hg := run_good P hP hm al h _ [] [] (init_good P (by omega) o)
+  obtain ⟨_, hinv, hst, _⟩ := hg
+  exact ⟨Nat.lt_of_le_of_lt hinv.fits hinv.below, hst⟩
+
+/-- **C01.3b (copy stays inside the packet)** whenever a packet is popped, the number of bytes
+    copied into the TSuplaDataPacket is at most its size and the end tag compared lies inside the
+    buffered data. -/
+theorem c01_copy_in_bounds (P : ProtoParams) (d : Bytes) (f : Frame) (rest : Bytes)
+    (h : parseHead P d = .frame f rest) :
+    P.hdr + le32 (d.drop 14) ≤ P.hdr + P.maxData ∧ P.hdr + le32 (d.drop 14) + 5 ≤ d.length := by
+  obtain ⟨_, _, _, _, hds, hlen, _⟩ := parseHead_frame_inv P d f rest h
+  exact ⟨by omega, hlen⟩
+
+/-- **C01.4 (drops are reported; what the hypothesis "accepted" excludes)** a segment that does
+    not fit the staging buffer is discarded with an error log and no state change. -/
+theorem c01_drop_reported (P : ProtoParams) (sc : Bytes) (s : Io) (d : Bytes) (h0 : d.length ≠ 0)
+    (hbig : ¬ d.length ≤ P.stage - s.i.staging.length) :
+    Io.recvCb P sc s d = (s, [.log "RECVOVF"]) := by
+  unfold Io.recvCb; rw [if_neg h0, if_neg hbig]
+
+/-- the verdict of the grammar on a stream prefix is final: appending bytes to a stream whose head
+    is a frame does not change that frame (segmentation independence of the spec itself). -/
+theorem c01_frame_stable (P : ProtoParams) (hP : P.WF) (d x : Bytes) (f : Frame) (rest : Bytes)
+    (h : parseHead P d = .frame f rest) : parseHead P (d ++ x) = .frame f (rest ++ x) := by
+  obtain ⟨hd, hv⟩ := parseHead_sound P hP d f rest h
+  rw [hd, List.append_assoc]
+  exact parseHead_complete P hP f hv _
+
+/-! ## Instantiation for the constants of the source tree, and non-vacuity -/
+
+theorem c01_delivery_repo (al : Nat → Bool) (o : IoOut) (h : List (Bytes × Ev)) :
+    delivers (Io.run Gen.protoParams al { i := {}, o := o, dead := false } h).2 <+:
+      goodFrames Gen.protoParams (acceptedStream Gen.protoParams al { i := {}, o := o, dead := false } h) :=
+  c01_delivery Gen.protoParams Gen.protoParams_wf (by decide) al o h
+
+theorem c01_bounds_repo (al : Nat → Bool) (o : IoOut) (h : List (Bytes × Ev)) :
+    (Io.run Gen.protoParams al { i := {}, o := o, dead := false } h).1.i.inb.data.length < 2048 ∧
+    (Io.run Gen.protoParams al { i := {}, o := o, dead := false } h).1.i.staging.length ≤ 1024 :=
+  c01_bounds Gen.protoParams Gen.protoParams_wf (by decide) al o h
+
+/-- non-vacuity: a concrete valid frame satisfies the hypotheses and is delivered -/
+example : delivers (Io.run Gen.protoParams (fun _ => true) {}
+    [([], .recv (Frame.bytes ⟨23, 7, 40, [1, 2]⟩))]).2 = [⟨23, 7, 40, [1, 2]⟩] := by decide
+
+/-- the historic witness of F1 (declared length 2^32-18 wraps the size sum to 0) is rejected and
+    kills the connection in the model of the repaired code -/
+example : (Io.run Gen.protoParams (fun _ => true) {}
+    [([], .recv (TAG ++ [23] ++ Bytes.toLe32 9 ++ Bytes.toLe32 9 ++ Bytes.toLe32 (4294967296 - 18) ++ TAG))]).1.dead
+    = true := by decide
+
 end SuplaVerif.C01
